@@ -1,6 +1,7 @@
 import Bt.Algos.ProgramX
 import Bt.Proofs.Program
 import Bt.Proofs.ProgramEx
+import Bt.Proofs.ProgramF
 import Bt.Props.C14
 /-! Whole programs, extended (`Bt.Algos.ProgramX`, namespace `Bt.Prog`): helper lemmas for the program-level
     instances of C04 (no look-ahead), C09 (shadow copy = stand-alone backtest) and C16 (bankruptcy flags) over
@@ -18,7 +19,7 @@ import Bt.Props.C14
 set_option linter.unusedSectionVars false
 set_option linter.unusedVariables false
 namespace Bt.PProgX
-open Bt Bt.P08 Bt.P04 Bt.Prog Bt.PProg Bt.Select
+open Bt Bt.P08 Bt.P04 Bt.Prog Bt.PProg Bt.PProgF Bt.Select
 
 /-! ### the universe as a table: rows `0..d` only -/
 
@@ -79,6 +80,11 @@ theorem selStep_no_lookahead (t : Table Nat K) (d : Nat) (prior : Option (List N
   | these idx nd neg => simp only [selStep, C14.selectThese_no_lookahead]
   | hasData lo mc nd neg => simp only [selStep, C14.hasData_no_lookahead]
   | momentum win n asc aon => simp only [selStep, selectMomentum_no_lookahead]
+  | where_ scols rows nd neg => simp only [selStep, C14.selectWhere_no_lookahead]
+  | statN scols rows n asc aon fs => rfl
+  | require ifNone => rfl
+  | regex ok => rfl
+  | types kids incl excl => rfl
 
 theorem selSteps_no_lookahead (t : Table Nat K) (d : Nat) : ∀ (ss : List (SelStep K)) (prior : Option (List Nat)),
     selSteps (t.truncate d) d ss prior = selSteps t d ss prior
@@ -90,7 +96,7 @@ theorem selSteps_no_lookahead (t : Table Nat K) (d : Nat) : ∀ (ss : List (SelS
     | ok r =>
       cases r with
       | none => rfl
-      | some sel => exact selSteps_no_lookahead t d rest (some sel)
+      | some sel => exact selSteps_no_lookahead t d rest sel
 
 /-- two tables with the same prefix up to `d` give the same selection at `d` -/
 theorem selSteps_agree {t t' : Table Nat K} {d : Nat} (h : t.truncate d = t'.truncate d) (ss : List (SelStep K))
@@ -163,6 +169,7 @@ theorem postStep_runC {C : Nat → Prop} {path : List Nat} {st : WStep K} {w w' 
     split at h
     · cases h; exact runC_refresh h1
     · cases h
+  | closeDead => exact closeDead_runC h
 
 theorem postSteps_runC {C : Nat → Prop} {path : List Nat} : ∀ (sts : List (WStep K)) {w w' : World K} {ws ws' : List (Nat × K)},
     postSteps cfg path sts (w, ws) = .ok (w', ws') → RunC cfg C w w'
@@ -171,9 +178,6 @@ theorem postSteps_runC {C : Nat → Prop} {path : List Nat} : ∀ (sts : List (W
     rw [postSteps] at h
     obtain ⟨⟨w1, ws1⟩, h1, h⟩ := bind_eq_ok h
     exact (postStep_runC h1).append (postSteps_runC rest h)
-
-/-- the world part of a post-processing state, truncated -/
-def truncFst (t : Nat) (s : World K × List (Nat × K)) : World K × List (Nat × K) := (s.1.trunc t, s.2)
 
 /-- … and commutes with truncation (the weights it computes are the same: it reads `weight` fields only) -/
 theorem postStep_trunc {t : Nat} (path : List Nat) (st : WStep K) {w : World K} (hw : ClockLE t w) (ws : List (Nat × K)) :
@@ -216,6 +220,7 @@ theorem postStep_trunc {t : Nat} (path : List Nat) (st : WStep K) {w : World K} 
       | strat sd ks =>
         simp only [Option.map_some, trunc_strat, curWeights_truncL]
         rfl
+  | closeDead => exact closeDead_trunc path hw ws
 
 theorem postSteps_trunc {t : Nat} (path : List Nat) : ∀ (sts : List (WStep K)) {w : World K}, ClockLE t w →
     ∀ (ws : List (Nat × K)),
@@ -237,9 +242,11 @@ theorem progRunX_runC {C : Nat → Prop} {p : ProgX K} {path : List Nat} {d : Na
     · split at h
       · cases h
       · cases h; exact .nil _
-      · split at h
-        · cases h
-        · obtain ⟨⟨w1, ws1⟩, h1, h⟩ := bind_eq_ok h
+      · obtain ⟨r, _, h⟩ := bind_eq_ok h
+        cases r with
+        | none => cases h; exact .nil _
+        | some ws0 =>
+          obtain ⟨⟨w1, ws1⟩, h1, h⟩ := bind_eq_ok h
           have r1 := postSteps_runC (C := C) _ h1
           exact r1.append (algoRebalance_runC (r1.wok hw) h)
     · cases h
@@ -274,9 +281,11 @@ theorem progRunX_trunc (p : ProgX K) (path : List Nat) {d t : Nat} (hd : d ≤ t
           | none => rfl
           | some sel =>
             simp only
-            split
-            · rfl
-            · refine bind_comm (truncFst t) (World.trunc t) (postSteps_trunc path p.post hw _) fun s1 h1 => ?_
+            refine bind_comm_same (World.trunc t) fun r _ => ?_
+            cases r with
+            | none => rfl
+            | some ws0 =>
+              refine bind_comm (truncFst t) (World.trunc t) (postSteps_trunc path p.post hw _) fun s1 h1 => ?_
               obtain ⟨w1, ws1⟩ := s1
               exact algoRebalance_trunc ((postSteps_runC (C := (· ≤ t)) _ h1).wok hw) path _ p.cash none
 
@@ -1178,5 +1187,59 @@ theorem btRun_bankrupt_rest (run : RunFn K) (capital : K) (d0 : Nat) (ds1 ds2 : 
   exact P16.btLoop_bankrupt _ ds2 hb
 
 end bankrupt
+
+/-! ### the rows the programs of a tree carry: only those up to the current row are read -/
+
+section rowsTree
+variable {α : Type}
+
+mutual
+/-- every program of the tree with what it carries per row of the index cut after row `t` (`PProgF.truncProg`) -/
+def truncX (t : Nat) : XTree α → XTree α
+  | .node p kids => .node (truncProg t p) (truncXL t kids)
+def truncXL (t : Nat) : List (Option (XTree α)) → List (Option (XTree α))
+  | [] => []
+  | none :: ks => none :: truncXL t ks
+  | some x :: ks => some (truncX t x) :: truncXL t ks
+end
+
+theorem truncX_node (t : Nat) (p : ProgX α) (kids : List (Option (XTree α))) :
+    truncX t (.node p kids) = .node (truncProg t p) (truncXL t kids) := by rw [truncX]
+theorem truncXL_nil (t : Nat) : truncXL t ([] : List (Option (XTree α))) = [] := by rw [truncXL]
+theorem truncXL_none (t : Nat) (ks : List (Option (XTree α))) : truncXL t (none :: ks) = none :: truncXL t ks := by
+  rw [truncXL]
+theorem truncXL_some (t : Nat) (x : XTree α) (ks : List (Option (XTree α))) :
+    truncXL t (some x :: ks) = some (truncX t x) :: truncXL t ks := by rw [truncXL]
+
+end rowsTree
+
+section rowsTreeK
+variable {K : Type} [Field K] [LinearOrder K] [IsStrictOrderedRing K] [HasFloor K] [HasNatFloor K]
+variable {cfg : Cfg K}
+
+mutual
+/-- `Strategy.run()` of a tree of extended programs at a row `d ≤ t` reads what the programs carry per row up to `t` only -/
+theorem treeRunG_truncX {d t : Nat} (h : d ≤ t) : (x : XTree K) → ∀ (path : List Nat) (w : World K),
+    treeRunG (embedX cfg (truncX t x)) path d w = treeRunG (embedX cfg x) path d w
+  | .node p kids, path, w => by
+    rw [truncX_node, embedX_node, embedX_node, treeRunG_node, treeRunG_node, progRunX_truncProg p path h]
+    exact P09.bind_congr' _ fun w1 _ => kidsRunG_truncXL h kids path 0 w1
+theorem kidsRunG_truncXL {d t : Nat} (h : d ≤ t) : (ks : List (Option (XTree K))) → ∀ (path : List Nat) (i : Nat)
+    (w : World K), kidsRunG (embedXL cfg (truncXL t ks)) path i d w = kidsRunG (embedXL cfg ks) path i d w
+  | [], path, i, w => by rw [truncXL_nil]
+  | none :: ks, path, i, w => by
+    rw [truncXL_none, embedXL_none, embedXL_none, kidsRunG_none, kidsRunG_none]
+    exact kidsRunG_truncXL h ks path (i + 1) w
+  | some x :: ks, path, i, w => by
+    rw [truncXL_some, embedXL_some, embedXL_some, kidsRunG_some, kidsRunG_some, treeRunG_truncX h x]
+    exact P09.bind_congr' _ fun w1 _ => kidsRunG_truncXL h ks path (i + 1) w1
+end
+
+/-- two trees of programs that carry the same rows up to `t` run alike on every row `d ≤ t` -/
+theorem treeRunG_rows_agree {x x' : XTree K} {t : Nat} (hxx : truncX t x = truncX t x') (path : List Nat) {d : Nat}
+    (h : d ≤ t) (w : World K) : treeRunG (embedX cfg x) path d w = treeRunG (embedX cfg x') path d w := by
+  rw [← treeRunG_truncX h x, ← treeRunG_truncX h x', hxx]
+
+end rowsTreeK
 
 end Bt.PProgX
